@@ -27,7 +27,9 @@ RULES["C16"] = (
     "by coordinate; one axis scaled by 1e-3..1e-6 (still spanning the full dimension), random rotation, scale 1e-3..1e6, "
     "offset 0/1/1e3/1e6; the same sets wrapped in PointCloud; closed template meshes (vf/gen/meshes.py) under the same "
     "placements; 2-D sets embedded exactly in an axis plane of 3-D (class planar3, boxes only); all subsets of the 2x2x2 cube "
-    "corners, of the 3x3 planar grid and of that grid embedded in two axis planes are enumerated. Oracles: own face-plane "
+    "corners, of the 3x3 planar grid and of that grid embedded in two axis planes are enumerated; sub-check 'sequence' runs all "
+    "twelve hull / bounding queries on ONE PointCloud / Trimesh in a drawn permutation and requires every answer to satisfy the "
+    "fresh-object predicates, the input arrays to stay byte-identical and every earlier (cached) answer to stay unchanged. Oracles: own face-plane "
     "test of every input point against every hull face plus exact vertex membership, own rigidity / containment / tightness / "
     "centring tests of boxes, spheres and cylinders in float64 with derived tolerances, own Welzl minimal ball with an "
     "optimality certificate, own dict-based adjacent-face projection for is_convex. Non-trivial: at least 5 distinct points "
@@ -288,13 +290,12 @@ def classify_open_hull(ps):
         return "other", f"(classification failed: {type(e).__name__})"
 
 
-def hull_clauses(ps, hull, src):
+def hull_clauses(ps, hull, src, sigbase="C16.hull"):
     P = ps.P
-    sigbase = "C16.hull"
     chk(isinstance(hull, trimesh.Trimesh) and len(hull.faces) >= 4, f"{sigbase}|is_mesh|{src}", lambda: f"{hull}")
     if not hull.is_watertight:
         why, txt = classify_open_hull(ps)
-        chk(False, f"C16.hull|watertight|{why}|{src}", f"{len(hull.vertices)} vertices {len(hull.faces)} faces; {txt}")
+        chk(False, f"{sigbase}|watertight|{why}|{src}", f"{len(hull.vertices)} vertices {len(hull.faces)} faces; {txt}")
     chk(bool(hull.is_winding_consistent), f"{sigbase}|winding_consistent|{src}", "")
     V = np.asarray(hull.vertices, dtype=np.float64)
     F = np.asarray(hull.faces, dtype=np.int64)
@@ -679,6 +680,133 @@ def b_cylinder(case, ctx):
 
 
 # ------------------------------------------------------------------------------------------------
+# several queries on ONE object, in a drawn order: a query must not corrupt what another one returns
+
+
+SEQ_QUERIES = [
+    "convex_hull",
+    "bounds",
+    "bounding_box",
+    "bounding_box_oriented",
+    "bounding_sphere",
+    "bounding_cylinder",
+    "bounding_primitive",
+    "apply_obb(copy)",
+    "convex.convex_hull(obj)",
+    "bounds.oriented_bounds(obj)",
+    "nsphere.minimum_nsphere(obj)",
+    "bounds.minimum_cylinder(obj)",
+]
+SEQ_CACHED = {"convex_hull", "bounds", "bounding_box", "bounding_box_oriented", "bounding_sphere", "bounding_cylinder", "bounding_primitive"}
+
+
+def _snapshot(q, g):
+    """bytes that define the answer of the (cached) property query q as currently returned by the object"""
+    a = getattr(g, q)
+    if q == "convex_hull":
+        return np.asarray(a.vertices).tobytes() + np.asarray(a.faces).tobytes()
+    if q == "bounds":
+        return np.asarray(a).tobytes()
+    pr = a.primitive
+    parts = [np.asarray(pr.transform, dtype=np.float64).tobytes(), type(a).__name__.encode()]
+    for name in ("extents", "radius", "height"):
+        if hasattr(pr, name):
+            parts.append(np.asarray(getattr(pr, name), dtype=np.float64).tobytes())
+    return b"".join(parts)
+
+
+def _primitive_clauses(ps, a, sb, who, general_ok=False):
+    if isinstance(a, tp.Sphere):
+        sphere_clauses(ps, a.primitive.center, a.primitive.radius, sb, who, general_ok)
+    elif isinstance(a, tp.Cylinder):
+        cylinder_clauses(ps, a.primitive.transform, a.primitive.radius, a.primitive.height, sb, who)
+    elif isinstance(a, tp.Box):
+        To = np.asarray(a.primitive.transform)
+        rigid_clause(To, 3, sb, who + ".transform")
+        box_clauses(ps, inv_rigid(To, 3), np.asarray(a.primitive.extents), sb, who)
+    else:
+        chk(False, f"{sb}|{who}|type", str(type(a)))
+
+
+def seq_query(q, g, ps, case, P, F, src, general_ok):
+    """run one query on the shared object and apply exactly the predicates of the fresh-object bodies"""
+    sb = f"C16.sequence|{src}"
+    if q == "convex_hull":
+        hull_clauses(ps, g.convex_hull, src, sigbase="C16.sequence|convex_hull")
+    elif q == "convex.convex_hull(obj)":
+        hull_clauses(ps, tc.convex_hull(g), src, sigbase="C16.sequence|convex.convex_hull(obj)")
+    elif q == "bounds":
+        b = np.asarray(g.bounds)
+        chk(np.array_equal(b[0], ps.lo) and np.array_equal(b[1], ps.hi), f"{sb}|bounds|exact", lambda: f"{b.tolist()}")
+    elif q == "bounding_box":
+        bb = g.bounding_box
+        Tb = np.asarray(bb.primitive.transform)
+        half = np.asarray(bb.primitive.extents) / 2.0
+        t4 = 4 * EPS * ps.M
+        chk(np.array_equal(Tb[:3, :3], np.eye(3)) and ((Tb[:3, 3] - half) <= ps.lo + t4).all() and ((Tb[:3, 3] + half) >= ps.hi - t4).all(), f"{sb}|bounding_box|contains", lambda: f"centre {Tb[:3,3].tolist()} half {half.tolist()}")
+        chk((np.abs(2 * half - (ps.hi - ps.lo)) <= t4).all(), f"{sb}|bounding_box|tight", lambda: f"{(2*half).tolist()} vs {(ps.hi-ps.lo).tolist()}")
+    elif q == "bounding_box_oriented":
+        _primitive_clauses(ps, obb_guarded(lambda: g.bounding_box_oriented, ps, f"{src}|bounding_box_oriented"), sb, q)
+    elif q == "bounding_sphere":
+        _primitive_clauses(ps, guarded(lambda: g.bounding_sphere, "C16.sequence", f"{src}|bounding_sphere"), sb, q, general_ok)
+    elif q == "bounding_cylinder":
+        _primitive_clauses(ps, guarded(lambda: g.bounding_cylinder, "C16.sequence", f"{src}|bounding_cylinder"), sb, q)
+    elif q == "bounding_primitive":
+        bp = guarded(lambda: obb_guarded(lambda: g.bounding_primitive, ps, f"{src}|bounding_primitive"), "C16.sequence", f"{src}|bounding_primitive")
+        chk(any(bp is o for o in (g.bounding_box_oriented, g.bounding_sphere, g.bounding_cylinder)), f"{sb}|bounding_primitive|is_one_of_three", str(type(bp)))
+        _primitive_clauses(ps, bp, sb, q)
+    elif q == "apply_obb(copy)":
+        g2 = g.copy()
+        Ta = obb_guarded(lambda: g2.apply_obb(), ps, f"{src}|apply_obb")
+        R, t = rigid_clause(Ta, 3, sb, q)
+        sa = shortcut_allowance(R, ps)
+        moved = np.asarray(g2.vertices)
+        dev = float(np.abs(moved - (P @ R.T + t)).max())
+        chk(dev <= ps.tol + sa, f"{sb}|{q}|applied", lambda: f"vertices after apply_obb differ from matrix*vertices by {dev:.3e}")
+        cen = float(np.abs(moved.min(axis=0) + moved.max(axis=0)).max()) / 2.0
+        chk(cen <= ps.tol + 2 * sa, f"{sb}|{q}|centred", lambda: f"centre after apply_obb off by {cen:.3e}")
+    elif q == "bounds.oriented_bounds(obj)":
+        T, ext = obb_guarded(lambda: tb.oriented_bounds(g), ps, f"{src}|oriented_bounds")
+        box_clauses(ps, T, ext, sb, q)
+    elif q == "nsphere.minimum_nsphere(obj)":
+        c, r = guarded(lambda: tn.minimum_nsphere(g), "C16.sequence", f"{src}|minimum_nsphere")
+        sphere_clauses(ps, c, r, sb, q, general_ok)
+    elif q == "bounds.minimum_cylinder(obj)":
+        res = guarded(lambda: tb.minimum_cylinder(g), "C16.sequence", f"{src}|minimum_cylinder")
+        cylinder_clauses(ps, res["transform"], res["radius"], res["height"], sb, q)
+    else:
+        raise ValueError(q)
+
+
+@body("C16.sequence")
+def b_sequence(case, ctx):
+    P, F = get_points(case)
+    ps = PS(P)
+    src = case["src"]
+    if not in_generated_domain(ps):
+        ctx.note(cls="seq:skipped_not_spanning")
+        return
+    general_ok = general_position_candidate(case, ps)
+    g = make_geom(case, P, F)
+    vbytes = P.tobytes()
+    fbytes = None if F is None else np.asarray(g.faces).tobytes()
+    snaps = {}
+    order = [SEQ_QUERIES[i] for i in case["order"]]
+    for q in order:
+        seq_query(q, g, ps, case, P, F, src, general_ok)
+        # the input is untouched ...
+        same = np.asarray(g.vertices).tobytes() == vbytes and (fbytes is None or np.asarray(g.faces).tobytes() == fbytes)
+        chk(same, f"C16.sequence|input_changed|by={q}|{src}", "vertices / faces of the object differ bytewise from what it was built from")
+        # ... and so is every answer handed out earlier (the object returns its cached answers again)
+        for e, snap in snaps.items():
+            chk(_snapshot(e, g) == snap, f"C16.sequence|answer_changed|{e}|by={q}|{src}", lambda: f"{e} of the same object returns different data after {q}")
+        if q in SEQ_CACHED and q not in snaps:
+            snaps[q] = _snapshot(q, g)
+    first = order[0]
+    ctx.note(nontrivial=len(ps.U) >= 5, cls=["seq:src=" + src, "seq:first=" + first, "seq:" + label_of(case)])
+
+
+# ------------------------------------------------------------------------------------------------
 # strategies
 
 
@@ -706,6 +834,16 @@ def any3(draw, mesh_weight=1):
     if draw(st.integers(0, 3)) < mesh_weight:
         return draw(mesh_case())
     return draw(pts_case(3))
+
+
+@st.composite
+def seq_case(draw):
+    c = draw(any3(mesh_weight=2))
+    if c["src"] == "points":
+        c["src"] = "cloud"
+    # a permutation of all queries: every ordered pair (earlier, later) of queries is reached
+    c["order"] = list(draw(st.permutations(list(range(len(SEQ_QUERIES))))))
+    return c
 
 
 @st.composite
@@ -753,7 +891,12 @@ def s_sphere(ctx):
 
 @subcheck("C16", "cylinder", shards={"quick": 4, "thorough": 16})
 def s_cylinder(ctx):
-    ctx.given("C16.cylinder", any3(mesh_weight=2), n={"quick": 700, "thorough": 16000})
+    ctx.given("C16.cylinder", any3(mesh_weight=2), n={"quick": 500, "thorough": 16000})
+
+
+@subcheck("C16", "sequence", shards={"quick": 4, "thorough": 16})
+def s_sequence(ctx):
+    ctx.given("C16.sequence", seq_case(), n={"quick": 240, "thorough": 8000})
 
 
 def _cube_subsets():
@@ -822,6 +965,10 @@ REQUIRED_CLASSES["C16"] = [
     "cyl:src=mesh",
     "cyl:src=cloud",
     "cyl:src=points",
+    "seq:src=mesh",
+    "seq:src=cloud",
+    "seq:first=bounding_sphere",
+    "seq:first=convex_hull",
     "is_convex:reflex",
     "is_convex:convex",
     "is_convex:multibody",
